@@ -387,6 +387,11 @@ func c07OpenPty() (master *os.File, slave string, err error) {
 // then ends long before the deadline
 func c07Op(r *Rng) []string {
 	a := hxi(r.Intn(0xff00))
+	if r.Intn(6) == 0 {
+		// maximum-size replies (257 / 259 bytes over MBAP)
+		return [][]string{{"ReadRegisters", a, hxi(124), "0"}, {"ReadRegisters", a, hxi(125), "1"},
+			{"ReadCoils", a, hxi(2000)}, {"ReadUint64s", a, hxi(31), "0"}}[r.Intn(4)]
+	}
 	switch r.Intn(8) {
 	case 0:
 		return []string{"ReadCoils", a, hxi(1 + r.Intn(40))}
